@@ -2176,6 +2176,25 @@ static void small_case(uint64_t c, vf_rng *r)
         size_t cap = (size_t)vf_below(r, 41);
         if (!new_container(&S[k], is_buf, siz, cap)) { alive = 0; }
     }
+    /* the sorting and searching entry points on a container that holds nothing yet (mutation sweep: `mem_ > 1` for `num_ > 1` in
+       a_buf_sort_back walks in front of an empty buffer) */
+    for (int k = 0; k < 2 && alive; ++k)
+    {
+        seq *s = &S[k];
+        unsigned char keyel[MAXSZ];
+        int ok = 1;
+        memset(keyel, 0x33, sizeof keyel);
+        g_siz = s->siz;
+        opname = "sort-empty";
+        vf_log("%s sort / sort_fore / sort_back / search on the empty container (mem %zu)", KN, L_mem(s));
+        L_sort(s);
+        L_sort_fore(s);
+        L_sort_back(s);
+        ++vf.evals;
+        VF_COUNT("sorts-and-search-on-empty-container");
+        if (L_search(s, keyel)) { FAIL("found-in-empty-container", "search returned non-null on an empty container"); }
+        alive = ok && check_state(s);
+    }
     if (alive && vf_want_sample() && c % 3 == 0)
     {
         vf_sample("history %" PRIu64 ": two %s of element size %zu (0 means 1)%s, %d ops from {push/pull both ends, insert, remove, store, erase, setn, setm, setz, sort, sort_fore, sort_back, push_sort, search, swap, accessors} with index classes incl. num, num+1, SIZE_MAX, -num; model compared after every call",
